@@ -178,10 +178,18 @@ DeletionTimes(W, name) ==
 ReleasedPromptly(W, name, t) ==
     JudgeLate => \A d \in DeletionTimes(W, name) : t <= d + Prompt
 
+\* A listing's project field that is not plainly `projects/<non-empty, no slash>`: the contract does
+\* not say how such a string is answered (only: with a status, never a panic or a broken connection).
+OddProject(p) ==
+    /\ p.op \in {"ListTopics", "ListSubs"} /\ "project_chars" \in DOMAIN p /\ ~p.project_long
+    /\ LET cs == p.project_chars IN
+       ~(Len(cs) > Len(PRE) /\ SubSeq(cs, 1, Len(PRE)) = PRE
+         /\ \A i \in (Len(PRE) + 1)..Len(cs) : cs[i] # "/")
+
 ListRetGuards(p, e, W, kinds) ==
     LET evs == {w \in W : w.k \in kinds} IN
     { G("C13", e.code \in {"OK", "INVALID_ARGUMENT", "NOT_FOUND"}),
-      G("C13", e.code = "INVALID_ARGUMENT" => (p.size < 0 \/ (p.token # "" /\ p.token \notin DOMAIN tok))),
+      G("C13", e.code = "INVALID_ARGUMENT" => (p.size < 0 \/ (p.token # "" /\ p.token \notin DOMAIN tok) \/ OddProject(p))),
       G("C13", p.size < 0 => e.code = "INVALID_ARGUMENT"),
       G("C13", e.code = "OK" =>
             \E w \in evs :
@@ -234,7 +242,7 @@ MalGuards(c, e) ==
       G("C17", Solo(c) => e.code \notin {"UNAVAILABLE", "UNKNOWN", "CANCELLED"}),
       \* page tokens: undecodable ones are rejected, decodable ones (issued or not) give a page
       G("C17", ("token_decodable" \in DOMAIN p /\ ~p.token_decodable) => e.code = "INVALID_ARGUMENT"),
-      G("C13", ("token_decodable" \in DOMAIN p /\ p.token_decodable /\ p.size >= 0 /\ ~MalformedName(p))
+      G("C13", ("token_decodable" \in DOMAIN p /\ p.token_decodable /\ p.size >= 0 /\ ~MalformedName(p) /\ ~OddProject(p))
                   => e.code \in {"OK", "NOT_FOUND"}) }
 
 RetGuards(c, e) ==
@@ -312,7 +320,11 @@ RetGuards(c, e) ==
               THEN SubEchoGuards(c, e.body, CHOOSE si \in SubLookups(W, p.name) \ {None} : TRUE) ELSE {})
       [] p.op = "DeleteSub" ->
         { G("C10", e.code = "NOT_FOUND" => (None \in SubLookups(W, p.name) \/ RacedDeletion(W, p.name))),
-          G("C10", e.code = "OK" => \E si \in SubLookups(W, p.name) \ {None} :
+          \* (answered OK without the deletion having happened, with consumers waiting on the
+          \* subscription: they are not released either - C12)
+          G(IF \E c2 \in DOMAIN pend : pend[c2].e.op \in {"Pull", "StreamOpen"} /\ pend[c2].e.sub = p.name
+            THEN "C10,C12" ELSE "C10",
+            e.code = "OK" => \E si \in SubLookups(W, p.name) \ {None} :
                        /\ S[si].st = "deleted"
                        /\ ~(p.name \in DOMAIN smap /\ smap[p.name] = si)),
           G("C11", e.code = "OK" => \E si \in SubLookups(W, p.name) \ {None} :
@@ -638,6 +650,10 @@ EvGuards(e) ==
             \* C07: control messages sent on an open StreamingPull get processed (C05 / C03 for a
             \* deadline modification that is not applied: the delivery expires although the client
             \* extended it)
+            \* C01: at rest every batch a topic accepted has reached the subscriptions it was fanned
+            \* out to (a topic answers a Publish only after all posts): nothing accepted is pending
+            \* for a live subscription (C16 too when a request was abandoned earlier)
+            { G(IF gone # {} THEN "C01,C16" ELSE "C01", \A si \in DOMAIN S : S[si].st = "live" => S[si].inbox = <<>>) } \cup
             { G("C07", \A c \in DOMAIN pend : StreamAlive(c) => CtrlPartDone(c, TRUE)),
               G("C03,C05,C07", \A c \in DOMAIN pend : StreamAlive(c) => CtrlPartDone(c, FALSE)) }
       [] e.k = "hang" ->
